@@ -30,6 +30,8 @@ def main():
         driver.log('%s tier=%s: %d harness cases, %d obligations, %d discharged, %d violations, %d engine errors, %d notes, %.1fs'
                    % (pid, args.tier, len(ctx.results), len(obs), n_ok, len(ctx.violations), len(errs), len(ctx.notes),
                       time.time() - ctx.t0))
+        slow = sorted(ctx.results, key=lambda r: -(r.get('total_s') or 0))[:4]
+        driver.log('  slowest cases:', [(r.get('harness'), r.get('forks'), r.get('symex_s'), r.get('total_s')) for r in slow])
         shown = set()
         for n in ctx.notes:
             k = n[:60]
